@@ -462,6 +462,17 @@ def r18_vec_set(body, log):
     return body
 
 
+def r21_map_index(body, log):
+    """R21: `M[&k]` (std::ops::Index on a HashMap: panics when the key is absent) -> `(*M.get(&k).unwrap())`, the
+    definition of that Index impl; the absent-key panic becomes the proof obligation of `unwrap`."""
+    pat = re.compile(r'(' + PATH + r')\[&(\w+)\]')
+    n = len(pat.findall(body))
+    if n:
+        body = pat.sub(r'(*\1.get(&\2).unwrap())', body)
+        log.append(f"R21 `m[&k]` -> `(*m.get(&k).unwrap())` ({n}x)")
+    return body
+
+
 def r18c_index_compound(body, log):
     """R18c: `v[i] OP= x;` -> `v.set(i, v[i] OP (x));` (the index expression is pure: path / arithmetic only)."""
     pat = re.compile(r'(?m)^([ \t]*)(' + PATH + r')\[([\w\s+\-*/%()]+)\] (\||&|\^|\+|-)= ([^;\n]+);')
@@ -646,11 +657,15 @@ def extract_fn(repo, fnspec):
     except OSError as e:
         raise ExtractError(f"anchor lost: file {fnspec['file']}: {e}")
     masked = mask(src)
-    loc = find_fn(src, masked, fnspec['name'], fnspec.get('impl'), fnspec.get('nth'))
-    sig = src[loc['sig_start']:loc['body_open']]
-    body = src[loc['body_open']:loc['body_close'] + 1]
+    ov = fnspec.get('_override')   # statement mode: (wrapper signature, body built from anchored statements, loc, log)
+    if ov:
+        sig, body, loc = ov['sig'], ov['body'], ov['loc']
+    else:
+        loc = find_fn(src, masked, fnspec['name'], fnspec.get('impl'), fnspec.get('nth'))
+        sig = src[loc['sig_start']:loc['body_open']]
+        body = src[loc['body_open']:loc['body_close'] + 1]
     orig_body = body
-    log = []
+    log = list(ov['log']) if ov else []
     rules = fnspec.get('rules', [])
     if 'unsafe' in mask(body).split():
         log.append("WARNING: body contains `unsafe`")
@@ -683,6 +698,8 @@ def extract_fn(repo, fnspec):
         body = r18_vec_set(body, log)
     if 'R18c' in rules:
         body = r18c_index_compound(body, log)
+    if 'R21' in rules:
+        body = r21_map_index(body, log)
     for d in fnspec.get('directives', []):
         k = d['kind']
         if k == 'opaque':
@@ -715,7 +732,7 @@ def extract_fn(repo, fnspec):
             log.append(f"R5 generic {t} monomorphised at {ty}")
 
     body, nloops = splice_loops(body, fnspec.get('loops', {}), log)
-    sig2 = rewrite_signature(sig, fnspec.get('ret'), receiver_mut=('R8' in rules),
+    sig2 = sig if ov else rewrite_signature(sig, fnspec.get('ret'), receiver_mut=('R8' in rules),
                              drop_generics=bool(fnspec.get('generics')), log=log)
     if fnspec.get('sig_subst'):
         for frm, to, rule in fnspec['sig_subst']:
@@ -727,6 +744,11 @@ def extract_fn(repo, fnspec):
     top = fnspec.get('top', '').rstrip()
     if top:
         body = '{\n' + top + body[1:]
+    endtext = fnspec.get('end', '').rstrip()
+    if endtext:
+        # unit-returning function: ghost text after the last statement / block, just before the closing brace
+        k = body.rindex('}')
+        body = body[:k].rstrip() + '\n' + endtext + '\n' + body[k:]
     bottom = fnspec.get('bottom', '').rstrip()
     if bottom:
         # insert before the tail expression = after the last statement boundary at depth 1
@@ -847,6 +869,19 @@ def extract_stmts(repo, fnspec):
         lines.append(loc['line'] + src[loc['sig_start']:loc['body_open']].count('\n') + body.count('\n', 0, i))
         log.append(f"kept statement at {fnspec['file']}:{lines[-1]}: `{' '.join(st.split())[:100]}`")
     text_body = '{\n' + '\n'.join('    ' + s_ for s_ in stmts) + ('\n    ' + fnspec['ret'] if fnspec.get('ret') else '') + '\n}'
+    if fnspec.get('rules') or fnspec.get('loops') or fnspec.get('top') or fnspec.get('bottom') or fnspec.get('end') or any(d['kind'] != 'subst' for d in fnspec.get('directives', [])):
+        # statement mode + the ordinary rule / loop / ghost pipeline
+        f2 = dict(fnspec)
+        loc2 = dict(loc)
+        loc2['line'] = lines[0] if lines else loc['line']
+        loc2['sig_start'] = loc2['body_open'] = 0
+        f2['_override'] = dict(sig=fnspec['wrapper_sig'], body=text_body, loc=loc2, log=log)
+        f2['ret'] = None
+        f2['name'] = fnspec['name']
+        r = extract_fn(repo, f2)
+        r['body_sha'] = hashlib.sha256(' '.join(' '.join(s_.split()) for s_ in stmts).encode()).hexdigest()[:16]
+        r['sig'] = fnspec['wrapper_sig']
+        return r
     for d in fnspec.get('directives', []):
         if d['kind'] == 'subst':
             text_body = subst(text_body, d['from'], d['to'], log, d.get('rule', 'subst'), d.get('count', 1), regex=bool(d.get('regex')), optional=bool(d.get('optional')))
